@@ -48,6 +48,8 @@ type Profile struct {
 	// PStopFalse: percent of plugin steps (with a cancel signal) given a stop condition that is a literal
 	// false spelling: a condition that never fires.
 	PStopFalse int
+	// OptionalRequired: percent of steps (Tags profiles) whose required input `a` is a wait-optional.
+	OptionalRequired int
 	// GuardFaults: percent of enabled conditions that fail to evaluate at run time (division by zero).
 	GuardFaults int
 	// ItemsFromStep: percent of loops (with an earlier plugin step) that run over that step's `its`
@@ -348,6 +350,12 @@ func (g *genCtx) genPluginStep(id string) *Step {
 			if src.Kind == "plugin" {
 				tag := rapid.SampledFrom([]string{"wait-optional", "soft-optional"}).Draw(g.t, "tag_o_kind")
 				s.In = setField(s.In, "o", Opt(tag, StepRef(src.ID, "outputs", "success", "s")))
+			}
+		}
+		if g.pct(g.prof.OptionalRequired, "tag_required") {
+			// an optional expression in a field the step requires: accepted; absent whenever its source is
+			if src := g.pickPrior("tag_required_src"); src != nil && src.Kind == "plugin" {
+				s.In = setField(s.In, "a", Opt("wait-optional", StepRef(src.ID, "outputs", "success", "a")))
 			}
 		}
 		if len(g.prior) >= 2 && g.pct(35, "tag_wf") {
